@@ -36,6 +36,7 @@ type gor struct {
 	waitOn  []interface{} // objects this goroutine is blocked on
 	selSend []interface{} // channels it waits to SEND on inside a select (subset of waitOn)
 	isMain  bool
+	vc      vclock // happens-before clock (race detection)
 	held    int // locks held (schedule exploration: no map-access preemption points inside a critical section)
 }
 
@@ -52,6 +53,7 @@ type sched struct {
 	mu       map[string]bool
 	rw       map[string]int // >0 readers, -1 writer
 	switches int
+	race     *raceState
 	bound    int // >0: schedule exploration with at most this many preemptions (verif.Schedules)
 	preempts int
 }
@@ -86,6 +88,16 @@ func (in *Interp) schedEnable() {
 func (in *Interp) spawn(fnv Value, args []Value) {
 	sc := in.sc
 	g := &gor{id: len(sc.all), resume: make(chan struct{})}
+	if sc.race != nil && sc.race.on {
+		// goroutine start: the child sees the parent's past
+		p := sc.cur
+		if len(p.vc) <= p.id {
+			p.tick()
+		}
+		g.vc = vcCopy(p.vc)
+		g.tick()
+		p.tick()
+	}
 	sc.all = append(sc.all, g)
 	sc.runq = append(sc.runq, g)
 	g.parked = true
@@ -310,6 +322,7 @@ func (in *Interp) endGoroutines() {
 // ---- channel operations in goroutine mode ----
 
 func (in *Interp) gSend(fr *frame, ch *Chan, v Value) {
+	in.raceRelease(ch)
 	if ch == nil {
 		in.park(ch) // blocks forever
 	}
@@ -354,9 +367,11 @@ func (in *Interp) gRecv(fr *frame, ch *Chan, elem types.Type) (Value, bool) {
 				ch.taken++
 			}
 			in.wake(ch)
+			in.raceAcquire(ch)
 			return v, true
 		}
 		if ch.closed {
+			in.raceAcquire(ch)
 			return in.zero(elem), false
 		}
 		// let senders that wait in a select for a receiver re-evaluate
@@ -401,6 +416,7 @@ func (in *Interp) gSelect(fr *frame, instr *ssa.Select) {
 					in.throw(fr, "send on closed channel")
 				}
 				if (s.ch.cap > 0 && len(s.ch.buf) < s.ch.cap) || (s.ch.cap == 0 && len(s.ch.buf) == 0 && in.hasReceiver(s.ch)) {
+					in.raceRelease(s.ch)
 					s.ch.buf = append(s.ch.buf, s.val)
 					if s.ch.cap == 0 {
 						s.ch.seq++
@@ -417,10 +433,12 @@ func (in *Interp) gSelect(fr *frame, instr *ssa.Select) {
 						s.ch.taken++
 					}
 					in.wake(s.ch)
+					in.raceAcquire(s.ch)
 					result(i, true, v)
 					return
 				}
 				if s.ch.closed {
+					in.raceAcquire(s.ch)
 					result(i, false, nil)
 					return
 				}
@@ -502,6 +520,7 @@ func (in *Interp) gClose(fr *frame, ch *Chan) {
 	if ch.closed {
 		in.throw(fr, "close of closed channel")
 	}
+	in.raceRelease(ch)
 	ch.closed = true
 	in.wake(ch)
 }
@@ -524,7 +543,14 @@ func init() {
 				if !release {
 					in.schedPoint(fr)
 				}
-				f(in, fr, ptrKey(a[0]))
+				key := ptrKey(a[0])
+				if release || strings.HasSuffix(name, ".Done") {
+					in.raceRelease("sync:" + key)
+				}
+				f(in, fr, key)
+				if acquire || strings.HasSuffix(name, ".Wait") {
+					in.raceAcquire("sync:" + key)
+				}
 				if acquire {
 					in.sc.cur.held++
 				}
@@ -645,6 +671,12 @@ func init() {
 var _ = fmt.Sprintf
 
 func init() {
+	intrinsics[verifPkg+".Races"] = func(in *Interp, fr *frame, fn *ssa.Function, a []Value) Value {
+		if in.sc != nil && a[0].(*Term).cval == 1 {
+			in.sc.race = &raceState{on: true, sync: map[interface{}]vclock{}, cells: map[interface{}]*raceCell{}}
+		}
+		return nil
+	}
 	intrinsics[verifPkg+".NativeRounds"] = func(in *Interp, fr *frame, fn *ssa.Function, a []Value) Value {
 		return in.tt.BVConst(1, 64)
 	}
